@@ -429,7 +429,7 @@ package tcp
 // delivered (counted by ghost(delivered)), and rcvNxt moves to the end of the segment (one
 // further for FIN). An empty segment is consumed exactly when it sits at rcvNxt. A segment that
 // is not consumed changes neither rcvNxt nor what has been delivered.
-//@ func (*receiver).consumeSegment props C01 C04 C02
+//@ func (*receiver).consumeSegment props C01 C04 C02 C14
 //@   requires rcvOK(r) && sndOK(r.ep.snd) && s != nil
 //@   requires segLen == seqnum.Size(s.data.size) && segSeq == s.sequenceNumber
 //@   requires segsNonNil(r.pendingRcvdSegments)
@@ -467,7 +467,7 @@ package tcp
 // handleRcvdSegment: nothing is processed after the receive side closed; a segment outside the
 // acceptable range (RFC 793 p.26, see acceptable) is answered by exactly one ACK and delivers
 // nothing and does not move rcvNxt ("data wholly outside the window is never delivered").
-//@ func (*receiver).handleRcvdSegment props C01 C04 C02
+//@ func (*receiver).handleRcvdSegment props C01 C04 C02 C14
 //@   requires rcvOK(r) && sndOK(r.ep.snd) && s != nil
 //@   requires segsNonNil(r.pendingRcvdSegments)
 //@   ensures implies(old(r.closed), r.rcvNxt == old(r.rcvNxt) && ghost(delivered) == old(ghost(delivered)) && ghost(tcpSegs) == old(ghost(tcpSegs)))
@@ -496,7 +496,7 @@ package tcp
 // sequence number); when transmission resumes after the ACK has been processed that must
 // still be so: the acknowledged part is trimmed from the segment AND its sequence number
 // advances with it, otherwise the next retransmission carries shifted bytes.
-//@ func (*sender).handleRcvdSegment props C01 C05
+//@ func (*sender).handleRcvdSegment props C01 C05 C14
 //@   impl congestionControl *renoState
 //@   panics_when true
 //@   loop 1 unroll 1
